@@ -229,6 +229,21 @@ func init() {
 				return nil, err
 			}
 			s.add(st)
+			{ // random walks: up to 10 puts over keys of length 1..3 over {a,b,c}
+				nch, ln := 300, 10
+				if cfg.Tier == "thorough" {
+					nch *= 6
+				}
+				rf := cfg.Out + ".rnd.abc.lin.ndjson"
+				rn, err := tt.RandomChains(trieExplorer(ln, "abc", 3), rf, nch, ln, cfg.Seed*31+7)
+				if err != nil {
+					return nil, err
+				}
+				s.Files = append(s.Files, rf)
+				s.Nodes += rn
+				s.Leaves += nch
+				s.Extra["random_walks"] = nch
+			}
 			// a 3-letter alphabet at depth 3 (keys up to length 2)
 			st, err = trieExplorer(3, "abc", 2).Explore(cfg.Out+".abc.tree", 4)
 			if err != nil {
